@@ -1,5 +1,5 @@
 #!/bin/sh
-# run the unedited existing suite against every seeded patch (each in its own scratch worktree), 6 at a time
+# run the unedited existing suite against every seeded patch (or the ids given as arguments) (each in its own scratch worktree), 6 at a time
 OUT=/tmp/fullsuite_seeded; mkdir -p $OUT
 run_one() {
   id=$1; T=$(mktemp -d /tmp/fs-XXXXXX); WT=$T/repo
@@ -9,8 +9,8 @@ run_one() {
   git -C /repo worktree remove --force "$WT"; rm -rf "$T"
 }
 n=0
-for d in /verif/seeded/*/; do
-  id=$(basename $d)
+if [ $# -gt 0 ]; then LIST="$*"; else LIST=$(ls -d /verif/seeded/*/ | xargs -n1 basename | grep -v '^_'); fi
+for id in $LIST; do
   run_one $id &
   n=$((n+1)); if [ $((n % 6)) -eq 0 ]; then wait; fi
 done
